@@ -1,7 +1,7 @@
 (* C06 — the operator string stays a consistent periodic world-line configuration. *)
 From Coq Require Import List QArith ZArith NArith Bool Arith.
-From QmcV Require Import Model.Prog Model.Sse Model.Nav Model.Diagonal Model.Cluster Model.Tempering
-     Proofs.DiagonalProofs Proofs.WorldLine.
+From QmcV Require Import Model.Prog Model.Sse Model.Nav Model.Diagonal Model.Cluster Model.ClusterValid Model.Tempering
+     Proofs.DiagonalProofs Proofs.WorldLine Proofs.ClusterFlipProofs.
 Import ListNotations.
 Local Open Scope nat_scope.
 
@@ -53,3 +53,10 @@ Print Assumptions C06_itime_fold_states.
 Theorem C06_itime_fold_one_per_slot : forall st sl, length (itime_states st sl) = length sl.
 Proof. exact itime_states_length. Qed.
 Print Assumptions C06_itime_fold_one_per_slot.
+
+(* the cluster flip, for every validated labelling and every flip outcome *)
+Theorem C06_cluster_flip_keeps_worldline : forall sl st b flips,
+  vars_in_range (length st) sl = true -> links_ok sl b = true -> wf st sl = true ->
+  let '(sl', st') := apply_flips sl st b flips in wf st' sl' = true.
+Proof. exact cluster_flip_wf. Qed.
+Print Assumptions C06_cluster_flip_keeps_worldline.
